@@ -1,5 +1,6 @@
 """C13: the in-memory filter returns exactly the matching objects (BOUNDED: stores of 0..2 objects, attribute paths
 of one and two components, optional attributes); the TinyDB query built from a filter denotes the same predicate."""
+import os as _os
 from pyvc.contracts import contract, T
 
 LDM = "flexstack.facilities.local_dynamic_map"
@@ -27,8 +28,10 @@ def flt(attr1, ops1, second=None):
                  filter_statement_2=stmt(attr2, ops2))
 
 
+_PAIR1 = OPS if _os.environ.get("PYVC_TIER") == "thorough" else ("EQUAL", "GREATER_THAN")
+_PAIR2 = OPS if _os.environ.get("PYVC_TIER") == "thorough" else ("LESS_THAN_OR_EQUAL", "NOT_EQUAL")
 FILTERS = [flt(a, [op]) for a in ("cam.a", "cam.b.c") for op in OPS] + \
-          [flt("cam.a", [o1], ("cam.b.c", [o2], [lo])) for o1 in ("EQUAL", "GREATER_THAN") for o2 in ("LESS_THAN_OR_EQUAL", "NOT_EQUAL") for lo in ("AND", "OR")]
+          [flt("cam.a", [o1], ("cam.b.c", [o2], [lo])) for o1 in _PAIR1 for o2 in _PAIR2 for lo in ("AND", "OR")]
 STORES = [T.list(), T.list(obj()), T.list(obj(), obj())]
 S = dict(mode="int", spec_module="spec_ldm", props=["C13", "C14"], frame_check=False)
 DBS = T.obj(DB, database=T.opaque("object"), _lock=T.opaque("rlock"), _next_id=T.int(0))
